@@ -20,10 +20,12 @@ def run(ctx):
         ctx.build(p, c08.BIN)
     c08.model_laws(ctx)
     events = c08.check_comp(ctx, "lz13", profiles)
-    empty = [e for e in events if len(e["input"]) == 0]
+    empty = [e for e in events if e["kind"] == "comp" and len(e["input"]) == 0]
     ctx.sample({"empty_input": [{"profiles": e["profiles"], "res": e["res"]["kind"], "stream": e["res"]["out"]} for e in empty]})
     ctx.exhaustive = True
-    ctx.assumptions += ["inputs explored up to %d bytes (statement: < 16 MiB)" % ctx.extra["largest_input"],
+    ctx.assumptions += ["inputs listed byte by byte up to %d bytes; beyond that (up to 16 MiB - 1) only generator-described periodic inputs "
+                        "(runs and short periods around 64 KiB and around the longest LZ11 reference, period 4096 up to 16 MiB - 1), "
+                        "judged by the validating decoder" % ctx.extra["largest_listed_input"],
                         "freedom from panic/abort is observed on the explored inputs (isolated worker, watchdog), not proved",
                         "scaled model: W=6, lengths 3..4 | 5..6 | 7..8 in the 2/3/4-byte layouts (LZ11s)"]
 
